@@ -38,7 +38,7 @@ theorem unravelI_append (pre : List Nat) (W i : Nat) (h : i < shapeSize (pre ++ 
 theorem ravelZ_unravelI (s : List Nat) (i : Nat) (h : i < shapeSize s) :
     ravelZ s (unravelI s i) = (i : Int) := by
   induction s generalizing i with
-  | nil => simp only [shapeSize] at h; simp [unravelI, unravel, ravelZ]; omega
+  | nil => simp only [shapeSize] at h; simp [ravelZ]; omega
   | cons d ds ih =>
     simp only [shapeSize] at h
     have hS : 0 < shapeSize ds := by
@@ -139,7 +139,7 @@ theorem Fits_neighbour (as bs : List Nat) (cur k : List Int) (h : Fits as bs cur
   induction as generalizing bs cur k with
   | nil =>
     cases bs <;> cases cur <;> simp_all [Fits]
-    cases k <;> simp_all [inside, addPos, subPos, ravelZ]
+    cases k <;> simp_all [inside, addPos, ravelZ]
   | cons a as ih =>
     cases bs with
     | nil => simp [Fits] at h
